@@ -74,7 +74,7 @@ struct packet {
 
 enum { OK = 1, INCOMPLETE = 0, BAD = -1 };
 // leniencies a receiver may apply without misreading anything (used only where stated by a harness)
-enum { L_OMIT_PROPS = 1 /* property length absent at the end of the packet */, L_TRAILING = 2 /* bytes after the property list */, L_DUP_PROPS = 4 /* repeated property */, L_RESERVED = 8 /* reserved bits of the CONNACK acknowledge flags */ };
+enum { L_OMIT_PROPS = 1 /* property length absent at the end of the packet */, L_TRAILING = 2 /* bytes after the property list */, L_DUP_PROPS = 4 /* repeated property */, L_RESERVED = 8 /* reserved bits of the CONNACK acknowledge flags */, L_PID0 = 16 /* packet identifier 0 */ };
 
 struct rd {
   const uint8_t* p; size_t n; size_t i; bool bad;
@@ -175,7 +175,7 @@ inline int decode(const uint8_t* p, size_t n, packet& k, int L = 0) {
       return OK;
     }
     case PUBACK: case PUBREC: case PUBREL: case PUBCOMP: { // 3.4 - 3.7: reason code and property length may be omitted
-      k.pid = r.u16(); k.has_pid = true; if (r.bad || k.pid == 0) return BAD;
+      k.pid = r.u16(); k.has_pid = true; if (r.bad || (k.pid == 0 && !(L & L_PID0))) return BAD;
       if (r.done()) { k.rc = 0; return OK; }
       k.rc = r.u8(); k.has_rc = true;
       if (!parse_props(r, X_PUBACK, k.props, k.props_present, true, L)) return BAD;
